@@ -14,6 +14,7 @@ def analyse(ctx: CheckContext, p: Program):
     bk.check_gen_use_matching(ctx, p, r)
     bk.check_pair_source(ctx, p, r, [f for f in p.all_funcs if f.module.name.startswith("OpenPinch.analysis.")])
     bk.check_zone_sum(ctx, p, r)
+    bk.check_default_filter(ctx, p, r)
     bk.check_name_match(ctx, p, r, [f for f in p.all_funcs if f.module.name in ("OpenPinch.analysis.indirect_integration_entry", "OpenPinch.analysis.direct_integration_entry")])
 
 
